@@ -56,7 +56,7 @@ func boundaryHashes(n int64) []int64 {
 }
 
 func slotCases(e *vh.Env) {
-	ns := []int64{1, 2, 3, 7, 509, 1024, 8192, math.MaxInt32, math.MaxInt64, math.MaxInt64 - 1, 1 << 62, 0, -1, -2, -7, -509, math.MinInt64, math.MinInt64 + 1}
+	ns := []int64{1, 2, 3, 4, 5, 7, 8, 509, 1024, 8192, math.MaxInt32, math.MaxInt64, math.MaxInt64 - 1, 1 << 62, 0, -1, -2, -7, -509, math.MinInt64, math.MinInt64 + 1}
 	for _, n := range ns {
 		for _, h := range boundaryHashes(n) {
 			slotCase(e, h, n)
@@ -122,10 +122,16 @@ func pickHashPool(rnd *rand.Rand, n int64) []int64 {
 	return pool
 }
 
-func genPlan(rnd *rand.Rand, x int, big bool) *plan {
+func genPlan(rnd *rand.Rand, x int, big bool) *plan { return genPlanWith(rnd, x, big, 0, nil) }
+
+// genPlanWith: lanes > 0 / pool != nil fix the lane count and the hashes (MultiLine)
+func genPlanWith(rnd *rand.Rand, x int, big bool, lanes int64, fixedPool []int64) *plan {
 	p := &plan{X: x, Lanes: 1}
 	if x == xMulti {
-		p.Lanes = []int64{1, 2, 2, 7, 7, 509}[rnd.Intn(6)]
+		p.Lanes = []int64{1, 2, 2, 7, 7, 509, 3, 4, 5, 8}[rnd.Intn(10)]
+		if lanes > 0 {
+			p.Lanes = lanes
+		}
 	}
 	if x == xProc {
 		p.Q = []int{1, 1, 2, 2, 3, 8}[rnd.Intn(6)]
@@ -139,6 +145,9 @@ func genPlan(rnd *rand.Rand, x int, big bool) *plan {
 	pool := []int64{0}
 	if x == xMulti {
 		pool = pickHashPool(rnd, p.Lanes)
+		if fixedPool != nil {
+			pool = fixedPool
+		}
 	}
 	for i := 1; i <= nc; i++ {
 		p.Calls = append(p.Calls, pcall{ID: i, Hash: pool[rnd.Intn(len(pool))], Fail: rnd.Intn(4) == 0, Form: rnd.Intn(3)})
@@ -266,7 +275,11 @@ type stats struct {
 }
 
 func runPlan(e *vh.Env, p *plan, st *stats, tag string) bool {
-	s := newSched(p)
+	return runPlanReg(e, p, st, tag, nil, nil)
+}
+
+func runPlanReg(e *vh.Env, p *plan, st *stats, tag string, reg *shareReg, extra map[string]interface{}) bool {
+	s := newSchedReg(p, reg)
 	s.execute()
 	all := s.observed()
 	items, readable, accepted := s.coqTrace(all)
@@ -281,6 +294,12 @@ func runPlan(e *vh.Env, p *plan, st *stats, tag string) bool {
 		}
 		if p.X == xRunner {
 			d["form"] = []string{"AsyncCall", "AsyncDelegate", "AsyncProc"}[pc.Form%3]
+		}
+		if pc.Shared > 0 {
+			d["shared_ctx"] = pc.Shared
+		}
+		if pc.Owner > 0 {
+			d["owner"] = pc.Owner
 		}
 		dcalls = append(dcalls, d)
 	}
@@ -315,10 +334,17 @@ func runPlan(e *vh.Env, p *plan, st *stats, tag string) bool {
 	if p.X == xMulti {
 		cls += "-n" + strconv.FormatInt(p.Lanes, 10)
 	}
-	e.Emit(vh.Case{Coq: coq, Class: cls + tag, Nontrivial: accepted >= 2,
-		Desc: map[string]interface{}{"executor": xShort[p.X], "lanes": p.Lanes, "queue_size": p.Q, "calls": dcalls,
-			"plan": strings.Join(acts, "; "), "trace": readable, "hang": s.hung},
-		Replay: "plan:" + string(rp)})
+	desc := map[string]interface{}{"executor": xShort[p.X], "lanes": p.Lanes, "queue_size": p.Q, "calls": dcalls,
+		"plan": strings.Join(acts, "; "), "trace": readable, "hang": s.hung}
+	replay := "plan:" + string(rp)
+	for k, v := range extra {
+		if k == "_replay" {
+			replay = v.(string)
+		} else {
+			desc[k] = v
+		}
+	}
+	e.Emit(vh.Case{Coq: coq, Class: cls + tag, Nontrivial: accepted >= 2, Desc: desc, Replay: replay})
 	return !s.hung
 }
 
@@ -341,6 +367,10 @@ func main() {
 				bs, _ := strconv.ParseInt(f[2], 10, 64)
 				if bx >= 0 && bx < 4 {
 					runBurst(e, bs, bx, st)
+				}
+			case strings.HasPrefix(e.Replay, "shared:"):
+				if gs, err := strconv.ParseInt(e.Replay[7:], 10, 64); err == nil {
+					runSharedGroup(e, gs, st)
 				}
 			case strings.HasPrefix(e.Replay, "long:"):
 				f := strings.Split(e.Replay, ":")
@@ -396,6 +426,11 @@ func main() {
 		}
 		if only < 0 {
 			slotCases(e)
+		}
+		if only < 0 || only == xMulti || only == xLine {
+			for i := 0; i < e.Scale(120, 1200) && st.hangs < 3; i++ {
+				runSharedGroup(e, e.Rnd.Int63(), st)
+			}
 		}
 		per := e.Scale(300, 2500)
 		for x := 0; x < 4; x++ {
